@@ -336,100 +336,109 @@ Proof.
 Qed.
 
 (* ---- calls ---- *)
-Definition expected_trace (v : verdict) (cb : bool) (b : beh) : list ev :=
+Definition expected_trace_g (rp : bool) (v : verdict) (cb : bool) (b : beh) : list ev :=
   match v with
   | VFail => check_invoke cb true
   | VGood mt seen =>
       EvInvoke (m_uid mt) seen ::
-      (if cb && is_request mt then map EvComplete (owed b) else [])
+      (if cb && is_request mt then map EvComplete (owed_g rp b) else [])
   end.
+Definition expected_trace : verdict -> bool -> beh -> list ev := expected_trace_g false.
 
-Lemma owed_script b :
-  firstn 1 (fst (req_script b) ++ (if snd (req_script b) then [true] else [])) = owed b.
-Proof. destruct b; reflexivity. Qed.
-
-Lemma call_model es route c a cb b :
-  call (build es) route c a cb b =
+Lemma call_model rp es route c a cb b :
+  call_g rp (build es) route c a cb b =
   match resolve es route with
   | None => check_invoke cb true
   | Some mt =>
       let h := mk_handler mt in
-      if h_req h then safe_call h c a cb b
-      else if cb then [] else safe_call h c a cb b
+      if h_req h then safe_call_g rp h c a cb b
+      else if cb then [] else safe_call_g rp h c a cb b
   end.
 Proof.
-  unfold call, resolve.
+  unfold call_g, resolve.
   destruct (split_route route) as [[g m]|]; [|reflexivity].
   rewrite sget_build. destruct (owner_b es g) as [eo|]; simpl; [|reflexivity].
-  unfold call_method. simpl c_handlers. rewrite sget_suitable. simpl sget.
+  unfold call_method_g. simpl c_handlers. rewrite sget_suitable. simpl sget.
   unfold target_b, new_name.
   change (fun mt : meth => shape_b mt && str_eqb m (rename (o_nf (snd eo)) (m_name mt)))
     with (sel (o_nf (snd eo)) m).
   destruct (find (sel (o_nf (snd eo)) m) (rev (e_meths (fst eo)))); reflexivity.
 Qed.
 
-Lemma safe_call_request mt c a cb b :
+(* the once-guard, the handler's script and the recover together yield what is owed *)
+Lemma safe_call_request rp mt c a cb b :
   shape_b mt = true -> is_request mt = true ->
-  safe_call (mk_handler mt) c a cb b =
-  if fits mt c a then EvInvoke (m_uid mt) (seen_of a) :: (if cb then map EvComplete (owed b) else [])
+  safe_call_g rp (mk_handler mt) c a cb b =
+  if fits mt c a
+  then EvInvoke (m_uid mt) (seen_of a) :: (if cb then map EvComplete (owed_g rp b) else [])
   else check_invoke cb true.
 Proof.
-  intros Hs Q. unfold safe_call. rewrite (shape_req mt Hs), Q.
+  intros Hs Q. unfold safe_call_g. rewrite (shape_req mt Hs), Q.
   unfold fits. rewrite Q. simpl h_meth. simpl h_ctx. simpl h_arg.
   change (in_ mt 1) with (ctx_type mt). change (in_ mt 2) with (msg_type mt).
   change (in_ mt 3) with (cb_type mt).
   destruct (ctx_fits (ctx_type mt) c && arg_fits (msg_type mt) a && p_cbfit (cb_type mt));
     [|reflexivity].
-  rewrite <- owed_script. destruct (req_script b) as [att pn]. simpl fst. simpl snd.
-  destruct cb; reflexivity.
+  destruct b, rp, cb; reflexivity.
 Qed.
 
-Lemma safe_call_notify mt c a b :
+Lemma safe_call_notify rp mt c a b :
   shape_b mt = true -> is_request mt = false ->
-  safe_call (mk_handler mt) c a false b =
+  safe_call_g rp (mk_handler mt) c a false b =
   if fits mt c a then [EvInvoke (m_uid mt) (seen_of a)] else [].
 Proof.
-  intros Hs Q. unfold safe_call. rewrite (shape_req mt Hs), Q.
+  intros Hs Q. unfold safe_call_g. rewrite (shape_req mt Hs), Q.
   unfold fits. rewrite Q, andb_true_r. simpl h_meth. simpl h_ctx. simpl h_arg.
   change (in_ mt 1) with (ctx_type mt). change (in_ mt 2) with (msg_type mt).
   reflexivity.
 Qed.
 
 (* the master equation for APICollection.Call *)
-Lemma call_trace es route c a cb b :
+Lemma call_trace_g rp es route c a cb b :
   f4_direct es route cb = false ->
-  call (build es) route c a cb b = expected_trace (expect_call es route c a) cb b.
+  call_g rp (build es) route c a cb b = expected_trace_g rp (expect_call es route c a) cb b.
 Proof.
   intro NF. rewrite call_model. unfold expect_call, f4_direct in *.
   destruct (resolve es route) as [mt|] eqn:R; [|reflexivity].
   pose proof (resolve_shape _ _ _ R) as Hs. cbv zeta. rewrite (shape_req mt Hs).
   destruct (is_request mt) eqn:Q.
-  - rewrite (safe_call_request mt c a cb b Hs Q).
+  - rewrite (safe_call_request rp mt c a cb b Hs Q).
     destruct (fits mt c a); [|reflexivity].
     simpl. rewrite Q, andb_true_r. reflexivity.
   - simpl in NF. rewrite andb_true_r in NF. subst cb.
-    rewrite (safe_call_notify mt c a b Hs Q).
+    rewrite (safe_call_notify rp mt c a b Hs Q).
     destruct (fits mt c a); reflexivity.
 Qed.
 
+Lemma call_trace es route c a cb b :
+  f4_direct es route cb = false ->
+  call (build es) route c a cb b = expected_trace (expect_call es route c a) cb b.
+Proof. exact (call_trace_g false es route c a cb b). Qed.
+
 (* the master equation for CallWithSerialize *)
-Lemma call_ser_trace es s route dec c cb b :
+Lemma call_ser_trace_g rp es s route dec c cb b :
   f4_ser es s route dec cb = false ->
-  call_ser (build es) s route dec c cb b =
-  Done (expected_trace (expect_ser es s route dec c) cb b).
+  call_ser_g rp (build es) s route dec c cb b =
+  Done (expected_trace_g rp (expect_ser es s route dec c) cb b).
 Proof.
-  intro NF. unfold call_ser, expect_ser, f4_ser in *.
+  intro NF. unfold call_ser_g, expect_ser, f4_ser in *.
   destruct s; try reflexivity;
     rewrite get_arg_type_resolve;
     (destruct (resolve es route) as [mt|] eqn:R; simpl; [|reflexivity]);
     rewrite (shape_msg_ptr mt (resolve_shape _ _ _ R)); simpl;
     (destruct (decode dec (p_tid (msg_type mt))) as [v|]; [|reflexivity]);
-    rewrite call_trace by exact NF; reflexivity.
+    rewrite call_trace_g by exact NF; reflexivity.
 Qed.
 
+Lemma call_ser_trace es s route dec c cb b :
+  f4_ser es s route dec cb = false ->
+  call_ser (build es) s route dec c cb b =
+  Done (expected_trace (expect_ser es s route dec c) cb b).
+Proof. exact (call_ser_trace_g false es s route dec c cb b). Qed.
+
 (* F4 itself, for every entry set: the call returns with no event at all *)
-Lemma call_f4 es route c a b :
-  f4_direct es route true = true -> call (build es) route c a true b = [].
+Lemma call_f4_g rp es route c a b :
+  f4_direct es route true = true -> call_g rp (build es) route c a true b = [].
 Proof.
   unfold f4_direct. simpl. intro F. rewrite call_model.
   destruct (resolve es route) as [mt|] eqn:R; [|discriminate].
@@ -445,26 +454,34 @@ Proof.
     (destruct (decode dec _); discriminate).
 Qed.
 
-Lemma call_ser_f4 es s route dec c b :
-  f4_ser es s route dec true = true -> call_ser (build es) s route dec c true b = Done [].
+Lemma call_ser_f4_g rp es s route dec c b :
+  f4_ser es s route dec true = true -> call_ser_g rp (build es) s route dec c true b = Done [].
 Proof.
-  unfold call_ser, f4_ser. intro F.
+  unfold call_ser_g, f4_ser. intro F.
   destruct s; try discriminate;
     rewrite get_arg_type_resolve;
     (destruct (resolve es route) as [mt|] eqn:R; simpl; [|discriminate]);
     rewrite (shape_msg_ptr mt (resolve_shape _ _ _ R)); simpl;
     (destruct (decode dec (p_tid (msg_type mt))) as [v|]; [|discriminate]);
-    rewrite call_f4 by exact F; reflexivity.
+    rewrite call_f4_g by exact F; reflexivity.
 Qed.
 
+Lemma call_ser_f4 es s route dec c b :
+  f4_ser es s route dec true = true -> call_ser (build es) s route dec c true b = Done [].
+Proof. exact (call_ser_f4_g false es s route dec c b). Qed.
+
 (* no panic leaves CallWithSerialize - with or without F4 *)
-Lemma no_escape es s route dec c cb b :
-  exists tr, call_ser (build es) s route dec c cb b = Done tr.
+Lemma no_escape_g rp es s route dec c cb b :
+  exists tr, call_ser_g rp (build es) s route dec c cb b = Done tr.
 Proof.
   destruct (f4_ser es s route dec cb) eqn:F.
-  - pose proof (f4_ser_cb _ _ _ _ _ F) as ->. rewrite call_ser_f4 by exact F. eauto.
-  - rewrite call_ser_trace by exact F. eauto.
+  - pose proof (f4_ser_cb _ _ _ _ _ F) as ->. rewrite call_ser_f4_g by exact F. eauto.
+  - rewrite call_ser_trace_g by exact F. eauto.
 Qed.
+
+Lemma no_escape es s route dec c cb b :
+  exists tr, call_ser (build es) s route dec c cb b = Done tr.
+Proof. exact (no_escape_g false es s route dec c cb b). Qed.
 
 (* ---- reading the expected trace ---- *)
 Lemma invocations_completes l : invocations (map EvComplete l) = [].
@@ -473,8 +490,8 @@ Proof. induction l as [|x r IH]; simpl; auto. Qed.
 Lemma completions_completes l : completions (map EvComplete l) = l.
 Proof. induction l as [|x r IH]; simpl; [reflexivity | rewrite IH; reflexivity]. Qed.
 
-Lemma invocations_expected v cb b :
-  invocations (expected_trace v cb b) =
+Lemma invocations_expected rp v cb b :
+  invocations (expected_trace_g rp v cb b) =
   match v with VFail => [] | VGood mt seen => [(m_uid mt, seen)] end.
 Proof.
   destruct v as [|mt seen]; simpl.
@@ -482,11 +499,11 @@ Proof.
   - destruct (cb && is_request mt); [rewrite invocations_completes|]; reflexivity.
 Qed.
 
-Lemma completions_expected v cb b :
-  completions (expected_trace v cb b) =
+Lemma completions_expected rp v cb b :
+  completions (expected_trace_g rp v cb b) =
   match v with
   | VFail => if cb then [true] else []
-  | VGood mt _ => if cb && is_request mt then owed b else []
+  | VGood mt _ => if cb && is_request mt then owed_g rp b else []
   end.
 Proof.
   destruct v as [|mt seen]; simpl.
@@ -494,7 +511,7 @@ Proof.
   - destruct (cb && is_request mt); [rewrite completions_completes|]; reflexivity.
 Qed.
 
-Lemma owed_once b : b <> BNever -> length (owed b) = 1%nat.
+Lemma owed_once rp b : b <> BNever -> length (owed_g rp b) = 1%nat.
 Proof. destruct b; simpl; congruence. Qed.
 
 (* under "no F4", a good classification of a call with a completion function is a request *)
@@ -533,6 +550,125 @@ Proof.
     (split; [exact F | exists v; auto]).
 Qed.
 
+(* ---- the Dispatch layer ---- *)
+Lemma find_build ess route :
+  find (fun cs => has_method cs route) (map build ess) = option_map build (first_resolving ess route).
+Proof.
+  unfold first_resolving. induction ess as [|es r IH]; simpl; [reflexivity|].
+  rewrite has_method_resolve. destruct (resolve es route); [reflexivity | exact IH].
+Qed.
+
+Lemma first_resolving_resolves ess route es :
+  first_resolving ess route = Some es -> In es ess /\ exists mt, resolve es route = Some mt.
+Proof.
+  intro F. apply find_some in F. destruct F as [I R]. split; [exact I|].
+  destruct (resolve es route) as [mt|]; [eauto | discriminate].
+Qed.
+
+Lemma only_inv_completes l : only_inv (map EvComplete l) = [].
+Proof. induction l as [|x r IH]; simpl; auto. Qed.
+
+Lemma rsp_of_completes l : rsp_of (map EvComplete l) = map RspDone l.
+Proof. induction l as [|x r IH]; simpl; [reflexivity | rewrite IH; reflexivity]. Qed.
+
+(* what the peer of a dispatching service is owed, from the entries alone *)
+Definition disp_inv (v : verdict) : list ev :=
+  match v with VFail => [] | VGood mt seen => [EvInvoke (m_uid mt) seen] end.
+Definition disp_rsps (v : verdict) (isreq : bool) (b : beh) : list rsp :=
+  if isreq then match v with VFail => [RspDone true] | VGood _ _ => map RspDone (owed_g true b) end
+  else [].
+
+(* master equation for Service.handleRequest + APIDispatcher.Dispatch, outside F4 *)
+Lemma handle_request_eq ess rid route dec rawok cx b :
+  route <> [] -> f4_disp ess rid route dec = false ->
+  handle_request (map build ess) rid route dec rawok cx b =
+  match first_resolving ess route with
+  | None => DO [] (if negb (rid =? 0) then [RspNoMethod] else []) rawok false
+  | Some es =>
+      let v := expect_ser es SProto route dec cx in
+      DO (disp_inv v) (disp_rsps v (negb (rid =? 0)) b) false false
+  end.
+Proof.
+  intros NE NF. unfold handle_request, f4_disp, try_call in *.
+  destruct route as [|ch rt]; [contradiction|]. simpl is_empty in *. cbv iota. simpl negb in NF.
+  rewrite andb_true_l in NF. rewrite find_build.
+  destruct (first_resolving ess (ch :: rt)) as [es|] eqn:F; simpl option_map; cbv iota beta.
+  - rewrite call_ser_trace_g by exact NF. cbv zeta.
+    destruct (expect_ser es SProto (ch :: rt) dec cx) as [|mt seen] eqn:E; simpl expected_trace_g.
+    + unfold disp_rsps, disp_inv, check_invoke. destruct (negb (rid =? 0)); reflexivity.
+    + unfold disp_rsps, disp_inv. destruct (negb (rid =? 0)) eqn:Q.
+      * rewrite (good_is_request_ser _ _ _ _ _ _ _ NF E). simpl andb. cbv iota.
+        simpl only_inv. simpl rsp_of.
+        rewrite only_inv_completes, rsp_of_completes. reflexivity.
+      * reflexivity.
+  - destruct (negb (rid =? 0)), rawok; reflexivity.
+Qed.
+
+(* F4 through Dispatch, for all entry sets: the request is swallowed - nothing runs, no response *)
+Lemma handle_request_f4 ess rid route dec rawok cx b :
+  f4_disp ess rid route dec = true ->
+  handle_request (map build ess) rid route dec rawok cx b = DO [] [] false false.
+Proof.
+  unfold handle_request, f4_disp, try_call. intro F.
+  destruct route as [|ch rt]; [discriminate|]. simpl is_empty in *. cbv iota. simpl negb in F.
+  rewrite andb_true_l in F. rewrite find_build.
+  destruct (first_resolving ess (ch :: rt)) as [es|]; [|discriminate]. simpl option_map. cbv iota beta.
+  pose proof (f4_ser_cb _ _ _ _ _ F) as Q. rewrite Q in *.
+  rewrite call_ser_f4_g by exact F. reflexivity.
+Qed.
+
+(* no request makes the service fail, F4 or not, route or not *)
+Lemma dispatch_no_escape ess rid route dec rawok cx b :
+  d_esc (handle_request (map build ess) rid route dec rawok cx b) = false.
+Proof.
+  destruct route as [|ch rt] eqn:Er.
+  - unfold handle_request. simpl. destruct rawok; reflexivity.
+  - rewrite <- Er. assert (NE : route <> []) by (subst; discriminate).
+    destruct (f4_disp ess rid route dec) eqn:F.
+    + rewrite handle_request_f4 by exact F. reflexivity.
+    + rewrite handle_request_eq by assumption.
+      destruct (first_resolving ess route); reflexivity.
+Qed.
+
+Lemma dispatch_notify_silent ess route dec rawok cx b :
+  d_rsp (handle_request (map build ess) 0 route dec rawok cx b) = [].
+Proof.
+  destruct route as [|ch rt] eqn:Er.
+  - unfold handle_request. simpl. destruct rawok; reflexivity.
+  - rewrite <- Er. assert (NE : route <> []) by (subst; discriminate).
+    assert (NF : f4_disp ess 0 route dec = false).
+    { destruct (f4_disp ess 0 route dec) eqn:F; [|reflexivity]. exfalso.
+      unfold f4_disp in F. apply andb_true_iff in F. destruct F as [_ F].
+      destruct (first_resolving ess route) as [es|]; [|discriminate].
+      apply f4_ser_cb in F. simpl in F. discriminate. }
+    rewrite handle_request_eq by assumption.
+    destruct (first_resolving ess route); reflexivity.
+Qed.
+
+Lemma dispatch_one_response ess rid route dec rawok cx b :
+  route <> [] -> f4_disp ess rid route dec = false -> rid <> 0 -> b <> BNever ->
+  let d := handle_request (map build ess) rid route dec rawok cx b in
+  length (d_rsp d) = 1%nat /\
+  (first_resolving ess route = None -> d_rsp d = [RspNoMethod] /\ d_inv d = []) /\
+  (forall es, first_resolving ess route = Some es -> expect_ser es SProto route dec cx = VFail ->
+     d_rsp d = [RspDone true] /\ d_inv d = []) /\
+  (forall es mt seen, first_resolving ess route = Some es ->
+     expect_ser es SProto route dec cx = VGood mt seen ->
+     d_inv d = [EvInvoke (m_uid mt) seen] /\ d_rsp d = map RspDone (owed_g true b)).
+Proof.
+  intros NE NF NR NB. cbv zeta. rewrite handle_request_eq by assumption.
+  assert (Q : negb (rid =? 0) = true) by (apply negb_true_iff, Z.eqb_neq; exact NR).
+  rewrite Q. destruct (first_resolving ess route) as [es|].
+  - cbv zeta. destruct (expect_ser es SProto route dec cx) as [|mt seen] eqn:E;
+      cbn [d_rsp d_inv disp_rsps disp_inv length].
+    + repeat split; try discriminate; intros; congruence.
+    + rewrite map_length, (owed_once true b NB).
+      split; [reflexivity|]. split; [discriminate|]. split.
+      * intros es0 X Y. inv X. congruence.
+      * intros es0 mt0 seen0 X Y. inv X. rewrite E in Y. inv Y. split; reflexivity.
+  - simpl. repeat split; discriminate.
+Qed.
+
 (* ---- the monitor accepts every model trace that has no F4 call ---- *)
 Lemma ev_eqb_refl e : ev_eqb e e = true.
 Proof.
@@ -545,6 +681,12 @@ Lemma trace_eqb_refl t : trace_eqb t t = true.
 Proof.
   induction t as [|e r IH]; simpl; [reflexivity|].
   rewrite ev_eqb_refl. exact IH.
+Qed.
+
+Lemma rsps_eqb_refl l : rsps_eqb l l = true.
+Proof.
+  induction l as [|x r IH]; simpl; [reflexivity|].
+  rewrite IH, andb_true_r. destruct x as [|e]; simpl; [reflexivity | destruct e; reflexivity].
 Qed.
 
 Lemma ev_eqb_eq a b : ev_eqb a b = true <-> a = b.
@@ -566,43 +708,81 @@ Lemma demand_expected v cb b :
   demand v cb b (expected_trace v cb b) false = true.
 Proof.
   intro G. unfold demand. simpl negb. rewrite andb_true_l.
-  destruct v as [|mt seen]; unfold expected_trace, check_invoke.
+  destruct v as [|mt seen]; unfold expected_trace, expected_trace_g, check_invoke.
   - destruct cb; apply trace_eqb_refl.
   - destruct cb.
     + rewrite (G eq_refl). cbn [andb]. apply trace_eqb_refl.
     + cbn [andb]. apply trace_eqb_refl.
 Qed.
 
+Lemma is_empty_false {A} (l : list A) : l <> [] -> is_empty l = false.
+Proof. destruct l; [contradiction | reflexivity]. Qed.
+
+Lemma demand_disp_model ess rid route dec rawok cx b :
+  f4_disp ess rid route dec = false ->
+  let d := handle_request (map build ess) rid route dec rawok cx b in
+  demand_disp ess rid route dec cx b (d_inv d) (d_rsp d) (d_esc d) = true.
+Proof.
+  intro NF. cbv zeta. unfold demand_disp. rewrite dispatch_no_escape. simpl negb. rewrite andb_true_l.
+  destruct (is_empty route) eqn:Em.
+  - destruct route; [|discriminate]. unfold handle_request. simpl. destruct rawok; reflexivity.
+  - assert (NE : route <> []) by (intro X; subst; discriminate).
+    rewrite handle_request_eq by assumption. unfold demand_routed.
+    destruct (first_resolving ess route) as [es|] eqn:F.
+    + cbv zeta. cbn [d_inv d_rsp].
+      destruct (expect_ser es SProto route dec cx) as [|mt seen] eqn:E.
+      * unfold disp_inv, disp_rsps. destruct (negb (rid =? 0)); reflexivity.
+      * unfold disp_inv, disp_rsps. destruct (negb (rid =? 0)) eqn:Q.
+        -- assert (R : is_request mt = true).
+           { unfold f4_disp in NF. rewrite F, Q, Em in NF. simpl negb in NF.
+             rewrite andb_true_l in NF. exact (good_is_request_ser _ _ _ _ _ _ _ NF E). }
+           rewrite R, trace_eqb_refl, rsps_eqb_refl. reflexivity.
+        -- rewrite trace_eqb_refl. reflexivity.
+    + cbn [d_inv d_rsp]. destruct (negb (rid =? 0)); reflexivity.
+Qed.
+
 Definition Inv (s : st) (ss : sst) : Prop :=
-  s_entries s = ss_reg ss /\ s_cs s = build (ss_built ss).
+  forall k, s_entries (s k) = ss_reg (ss k) /\ s_cs (s k) = build (ss_built (ss k)).
 
 Lemma inv_init : Inv init sinit.
-Proof. split; reflexivity. Qed.
+Proof. intro k. split; reflexivity. Qed.
 
 Lemma step_inv s ss o : Inv s ss -> Inv (fst (step s o)) (sstep ss o).
 Proof.
-  intros [Ie Ic]. destruct o; simpl; try (split; assumption).
-  - split; simpl; [rewrite Ie; reflexivity | exact Ic].
-  - split; simpl; [exact Ie | rewrite Ie; reflexivity].
+  intro I. destruct o as [k e op_|k|k r|k r|k sr r bytes dec c cb b|k r a c cb b|ks rid r bytes dec rawok cx b];
+    simpl; try exact I.
+  - intro j. unfold upd, supd. destruct (j =? k); [|apply I].
+    destruct (I k) as [Ie Ic]. split; simpl; [rewrite Ie; reflexivity | exact Ic].
+  - intro j. unfold upd, supd. destruct (j =? k); [|apply I].
+    destruct (I k) as [Ie Ic]. split; simpl; [exact Ie | rewrite Ie; reflexivity].
+Qed.
+
+Lemma tables_builts s ss ks : Inv s ss -> map (fun k => s_cs (s k)) ks = map build (builts ss ks).
+Proof.
+  intro I. unfold builts. rewrite map_map. apply map_ext. intro k. apply I.
 Qed.
 
 Lemma step_ok s ss o :
   Inv s ss -> op_f4 ss o = false -> op_ok ss o (snd (step s o)) = true.
 Proof.
-  intros [Ie Ic] NF. destruct o as [e op_| |r|r|sr r bytes dec c cb b|r a c cb b]; simpl.
+  intros I NF.
+  destruct o as [k e op_|k|k r|k r|k sr r bytes dec c cb b|k r a c cb b|ks rid r bytes dec rawok cx b];
+    simpl.
   - reflexivity.
   - reflexivity.
-  - rewrite Ic, has_method_resolve. apply Bool.eqb_reflx.
-  - rewrite Ic, get_arg_type_resolve.
-    destruct (resolve (ss_built ss) r) as [mt|]; simpl; [apply Z.eqb_refl | reflexivity].
-  - simpl in NF. rewrite Ic, call_ser_trace by exact NF. simpl.
+  - destruct (I k) as [_ Ic]. rewrite Ic, has_method_resolve. apply Bool.eqb_reflx.
+  - destruct (I k) as [_ Ic]. rewrite Ic, get_arg_type_resolve.
+    destruct (resolve (ss_built (ss k)) r) as [mt|]; simpl; [apply Z.eqb_refl | reflexivity].
+  - destruct (I k) as [_ Ic]. simpl in NF. rewrite Ic, call_ser_trace by exact NF. simpl.
     apply demand_expected. intros ->.
-    destruct (expect_ser (ss_built ss) sr r dec c) as [|mt seen] eqn:E; [exact I|].
+    destruct (expect_ser (ss_built (ss k)) sr r dec c) as [|mt seen] eqn:E; [exact Logic.I|].
     eapply good_is_request_ser; eauto.
-  - simpl in NF. rewrite Ic, call_trace by exact NF.
+  - destruct (I k) as [_ Ic]. simpl in NF. rewrite Ic, call_trace by exact NF.
     apply demand_expected. intros ->.
-    destruct (expect_call (ss_built ss) r c a) as [|mt seen] eqn:E; [exact I|].
+    destruct (expect_call (ss_built (ss k)) r c a) as [|mt seen] eqn:E; [exact Logic.I|].
     eapply good_is_request_direct; eauto.
+  - simpl in NF. rewrite (tables_builts s ss ks I).
+    apply (demand_disp_model (builts ss ks) rid r dec rawok cx b NF).
 Qed.
 
 Lemma monitor_run_from ops : forall s ss,
@@ -635,10 +815,11 @@ Proof.
   destruct (run_from s1 r) as [s2 bs] eqn:E2. simpl in *. exact IH.
 Qed.
 
-Lemma tables_of_last_build ops :
-  s_cs (final ops) = build (ss_built (sfinal ops)) /\ s_entries (final ops) = ss_reg (sfinal ops).
+Lemma tables_of_last_build ops k :
+  s_cs (final ops k) = build (ss_built (sfinal ops k)) /\
+  s_entries (final ops k) = ss_reg (sfinal ops k).
 Proof.
-  destruct (inv_run_from ops init sinit inv_init) as [A B]. split; assumption.
+  destruct (inv_run_from ops init sinit inv_init k) as [A B]. split; assumption.
 Qed.
 
 (* ---- readable corollaries ---- *)
@@ -652,7 +833,7 @@ Proof.
   intros NF E. destruct (expect_ser_good _ _ _ _ _ _ _ E) as [_ [R [_ [v [Sv D]]]]].
   exists (expected_trace (VGood mt seen) cb b), v.
   split; [rewrite call_ser_trace by exact NF; rewrite E; reflexivity|].
-  split; [rewrite invocations_expected; subst seen; reflexivity|].
+  split; [unfold expected_trace; rewrite invocations_expected; subst seen; reflexivity|].
   split; [exact Sv|]. split; [apply resolve_targets; exact R | exact D].
 Qed.
 
@@ -664,7 +845,7 @@ Proof.
   - pose proof (f4_ser_cb _ _ _ _ _ F) as ->. rewrite call_ser_f4 by exact F.
     exists []. split; reflexivity.
   - rewrite call_ser_trace by exact F. rewrite E. eexists. split; [reflexivity|].
-    apply (invocations_expected VFail).
+    apply (invocations_expected false VFail).
 Qed.
 
 Lemma completes_once_partial es s route dec c b :
@@ -673,7 +854,7 @@ Lemma completes_once_partial es s route dec c b :
     completions tr = match expect_ser es s route dec c with VFail => [true] | VGood _ _ => owed b end.
 Proof.
   intro NF. rewrite call_ser_trace by exact NF. eexists. split; [reflexivity|].
-  rewrite completions_expected.
+  unfold expected_trace. rewrite completions_expected.
   destruct (expect_ser es s route dec c) as [|mt seen] eqn:E; [reflexivity|].
   rewrite (good_is_request_ser _ _ _ _ _ _ _ NF E). reflexivity.
 Qed.
@@ -686,8 +867,9 @@ Lemma completes_exactly_once es s route dec c b :
 Proof.
   intros NF NB. destruct (completes_once_partial es s route dec c b NF) as [tr [D Cm]].
   exists tr. split; [exact D|]. rewrite Cm.
-  destruct (expect_ser es s route dec c); split; auto using owed_once.
-  discriminate.
+  destruct (expect_ser es s route dec c); split; auto.
+  - apply (owed_once false b NB).
+  - discriminate.
 Qed.
 
 Lemma no_cb_no_completion es s route dec c b :
@@ -697,7 +879,8 @@ Proof.
   { destruct (f4_ser es s route dec false) eqn:F; [|reflexivity].
     apply f4_ser_cb in F. discriminate. }
   rewrite call_ser_trace by exact NF. eexists. split; [reflexivity|].
-  rewrite completions_expected. destruct (expect_ser es s route dec c); reflexivity.
+  unfold expected_trace. rewrite completions_expected.
+  destruct (expect_ser es s route dec c); reflexivity.
 Qed.
 
 Lemma call_completes_once_partial es route c a b :
@@ -707,7 +890,7 @@ Lemma call_completes_once_partial es route c a b :
   invocations (call (build es) route c a true b) =
   match expect_call es route c a with VFail => [] | VGood mt seen => [(m_uid mt, seen)] end.
 Proof.
-  intro NF. rewrite call_trace by exact NF.
+  intro NF. rewrite call_trace by exact NF. unfold expected_trace.
   rewrite completions_expected, invocations_expected. split; [|reflexivity].
   destruct (expect_call es route c a) as [|mt seen] eqn:E; [reflexivity|].
   rewrite (good_is_request_direct _ _ _ _ _ _ NF E). reflexivity.
@@ -722,19 +905,27 @@ Definition ex_join : meth := M 1 [74; 111; 105; 110] true [ex_pctx; ex_pmsg; ex_
 Definition ex_note : meth := M 2 [78; 111; 116; 101] true [ex_pctx; ex_pmsg].           (* Note *)
 Definition ex_bad : meth := M 3 [66; 97; 100] true [ex_pctx; ex_pval; ex_pcb].          (* Bad *)
 Definition ex_entry : entry := E 0 [90; 111; 111] [ex_bad; ex_join; ex_note].           (* Zoo *)
-Definition ex_es : list eopt := [(ex_entry, O [104; 105] (Some nf_lower))].             (* "hi", ToLower *)
+Definition ex_opts : opts := O [104; 105] (Some nf_lower).                              (* "hi", ToLower *)
+Definition ex_es : list eopt := [(ex_entry, ex_opts)].
 Definition ex_r_join : str := [104; 105; 46; 106; 111; 105; 110].   (* hi.join *)
 Definition ex_r_note : str := [104; 105; 46; 110; 111; 116; 101].   (* hi.note *)
 Definition ex_r_bad : str := [104; 105; 46; 98; 97; 100].           (* hi.bad *)
 Definition ex_dec : list (Z * dres) := [(10, DOk 7)].
 Definition ex_hist : list op :=
-  [OReg ex_entry (O [104; 105] (Some nf_lower)); OBuild; OHas ex_r_join; OHas ex_r_bad;
-   OCallSer SJson ex_r_join [] ex_dec CNil true BOkPanic;
-   OCallSer SJson ex_r_join [] [] CNil true BOk;
-   OCallSer SJson ex_r_note [] ex_dec CNil false BOk].
+  [OReg 0 ex_entry ex_opts; OBuild 0; OHas 0 ex_r_join; OHas 0 ex_r_bad; OHas 1 ex_r_join;
+   OCallSer 0 SJson ex_r_join [] ex_dec CNil true BOkPanic;
+   OCallSer 0 SJson ex_r_join [] [] CNil true BOk;
+   OCallSer 0 SJson ex_r_note [] ex_dec CNil false BOk;
+   ODispatch [1; 0] 5 ex_r_join [] ex_dec true (CTyp 1) BOkBad;
+   ODispatch [1; 0] 6 ex_r_bad [] ex_dec false (CTyp 1) BOk;
+   ODispatch [1; 0] 7 ex_r_join [] ex_dec true (CTyp 2) BOk;
+   ODispatch [1; 0] 0 ex_r_note [] ex_dec true (CTyp 1) BOk].
 Definition ex_hist_f4 : list op :=
-  [OReg ex_entry (O [104; 105] (Some nf_lower)); OBuild;
-   OCallSer SJson ex_r_note [] ex_dec CNil true BOk].
+  [OReg 0 ex_entry ex_opts; OBuild 0;
+   OCallSer 0 SJson ex_r_note [] ex_dec CNil true BOk].
+Definition ex_hist_f4d : list op :=
+  [OReg 0 ex_entry ex_opts; OBuild 0;
+   ODispatch [0] 9 ex_r_note [] ex_dec true (CTyp 1) BOk].
 
 Lemma completes_once_refuted :
   exists es s route dec c b mt v,
@@ -745,8 +936,24 @@ Proof.
   split; [discriminate|]. split; vm_compute; reflexivity.
 Qed.
 
+Lemma dispatch_one_response_refuted :
+  exists ess rid route dec rawok cx b es mt v,
+    rid <> 0 /\ b <> BNever /\ first_resolving ess route = Some es /\
+    expect_ser es SProto route dec cx = VGood mt (Some v) /\
+    d_rsp (handle_request (map build ess) rid route dec rawok cx b) = [].
+Proof.
+  exists [ex_es], 9, ex_r_note, ex_dec, true, (CTyp 1), BOk, ex_es, ex_note, 7.
+  split; [discriminate|]. split; [discriminate|]. repeat split; vm_compute; reflexivity.
+Qed.
+
 Lemma history_refuted : exists h, has_f4 h = true /\ ~ holds h (run h).
 Proof.
   exists ex_hist_f4. split; [vm_compute; reflexivity|].
+  unfold holds. vm_compute. discriminate.
+Qed.
+
+Lemma history_refuted_dispatch : exists h, has_f4 h = true /\ ~ holds h (run h).
+Proof.
+  exists ex_hist_f4d. split; [vm_compute; reflexivity|].
   unfold holds. vm_compute. discriminate.
 Qed.
